@@ -31,16 +31,61 @@ class Stop(Exception):
     pass
 
 
-def run_impl(start, explicit, accept, beta_err_versions):
-    """Drive the real loop.  Returns (versions tried, outcome) with outcome 'connected:v' | 'failed'."""
+_CLUSTER_CACHE = {}
+
+
+def make_cluster(start, explicit):
+    """A REAL Cluster built by its own __init__ (no scheduler thread, executor shut down at once), so that the way the
+    constructor derives `_protocol_version_explicit` from its arguments is part of what is checked: explicit means
+    `protocol_version=start` was passed, implicit means it was not (the version is then set as negotiation would)."""
     from vf.impl import import_cluster
     cl = import_cluster()
+    from cassandra.connection import Connection
+
+    class FakeConnClass(Connection):
+        @classmethod
+        def initialize_reactor(cls):
+            pass
+
+        @classmethod
+        def handle_fork(cls):
+            pass
+
+    class NoSched(object):
+        is_shutdown = False
+
+        def __init__(self, *a, **k):
+            pass
+
+        def schedule(self, *a, **k):
+            pass
+
+        schedule_unique = schedule
+
+        def shutdown(self):
+            pass
+    real = cl._Scheduler
+    cl._Scheduler = NoSched
+    try:
+        kw = dict(contact_points=['127.0.0.1'], connection_class=FakeConnClass, monitor_reporting_enabled=False,
+                  idle_heartbeat_interval=0, executor_threads=1)
+        if explicit:
+            kw['protocol_version'] = start
+        c = cl.Cluster(**kw)
+    finally:
+        cl._Scheduler = real
+    c.executor.shutdown()
+    if not explicit:
+        c.protocol_version = start
+    return cl, c
+
+
+def run_impl(start, explicit, accept, beta_err_versions):
+    """Drive the real loop.  Returns (versions tried, outcome) with outcome 'connected:v' | 'failed'."""
+    cl, cluster = make_cluster(start, explicit)
     from cassandra.connection import ProtocolVersionUnsupported
     from cassandra.protocol import ProtocolException
     from cassandra import DriverException
-    cluster = object.__new__(cl.Cluster)
-    cluster._protocol_version_explicit = explicit
-    cluster.protocol_version = start
     tried = []
 
     class FakeConn(object):
@@ -70,8 +115,7 @@ def run_impl(start, explicit, accept, beta_err_versions):
                                     message='Beta version of the protocol used (%d), but USE_BETA flag is unset' % v)
         raise ProtocolVersionUnsupported(endpoint, v)
     cluster.connection_factory = factory
-    cc = object.__new__(cl.ControlConnection)
-    cc._cluster = cluster
+    cc = cluster.control_connection
     cc._is_shutdown = False
 
     class H(object):
@@ -84,6 +128,64 @@ def run_impl(start, explicit, accept, beta_err_versions):
     except (DriverException, ProtocolException, ProtocolVersionUnsupported) as e:
         out = 'failed'
     return tried, out, cluster.protocol_version
+
+
+def unsupported_visible_before_wakeup():
+    """Connection.factory() wakes up on connected_event and then reads is_unsupported_proto_version to decide whether to
+    raise ProtocolVersionUnsupported (the only error the negotiation loop steps down on).  So when the server answers
+    STARTUP/OPTIONS with the 'unsupported protocol version' ProtocolException, the flag must already be set at the
+    moment connected_event is set.  Drives the real process_msg on a socket-less connection and snapshots the flag
+    inside Event.set().  Returns None when fine, else a description."""
+    import threading, struct
+    from cassandra.connection import Connection, _Frame
+
+    snap = []
+
+    class Ev(object):
+        def __init__(self, conn):
+            self._e = threading.Event()
+            self.conn = conn
+
+        def set(self):
+            snap.append(bool(self.conn.is_unsupported_proto_version))
+            self._e.set()
+
+        def is_set(self):
+            return self._e.is_set()
+
+        def wait(self, t=None):
+            return self._e.wait(t)
+
+        def clear(self):
+            self._e.clear()
+
+    class NoSock(Connection):
+        def __init__(self):
+            Connection.__init__(self, '127.0.0.1', protocol_version=4)
+            self.connected_event = Ev(self)
+
+        def close(self):
+            self.is_closed = True
+            self.connected_event.set()
+
+        def push(self, data):
+            pass
+    c = NoSock()
+    got = []
+    c._requests[0] = (got.append, __import__('cassandra.protocol').protocol.ProtocolHandler.decode_message, None)
+    msg = b'Invalid or unsupported protocol version: 4'
+    body = struct.pack('>i', 0x000A) + struct.pack('>H', len(msg)) + msg
+    import inspect
+    hdr = _Frame(version=4, flags=0, stream=0, opcode=0, body_offset=9, end_pos=9 + len(body))
+    c.process_msg(hdr, body)
+    if not c.is_unsupported_proto_version:
+        return 'is_unsupported_proto_version not set after an unsupported-version ERROR'
+    if not snap:
+        return 'connected_event not set after an unsupported-version ERROR (factory() would hang until its timeout)'
+    if not snap[0]:
+        return 'connected_event was set before is_unsupported_proto_version: a waiter in Connection.factory() can see the raw ' \
+               'ProtocolException instead of ProtocolVersionUnsupported and the negotiation never steps down'
+    return None
 
 
 def zl(v):
@@ -166,6 +268,16 @@ def run(ctx):
                     cases.append('(let r := try_connect enough_fuel (%s) %s %s in py_list_eqb (fst r) [%s] && outcome_eqb (snd r) (%s))'
                                  % (srv, 'true' if explicit else 'false', zl(start), '; '.join(zl(v) for v in tried), o))
                     meta.append((case, tried, out))
+    # the hand-off from the connection layer: the unsupported-version verdict must be visible before the waiter wakes up
+    try:
+        prob = unsupported_visible_before_wakeup()
+    except Exception as e:
+        prob = None
+        ctx.proof_broken.append(('harness:unsupported_visible_before_wakeup', repr(e)[:300]))
+    ctx.case(['wakeup-order'], nontrivial=True)
+    if prob:
+        ctx.violation('connection.unsupported-flag-after-wakeup', prob, case={'probe': 'unsupported_visible_before_wakeup'},
+                      kind='interleaving', expected='flag set before connected_event', actual=prob, theorem='C41 (input of the loop model)')
     # get_lower_supported / predicates: translation validation on a range of integers
     pcases, pmeta = [], []
     for v in list(range(-3, 80)) + [127, 128, 255, 256, 2**31]:
@@ -194,6 +306,11 @@ def run(ctx):
 
 def replay(ctx, rp):
     c = rp.get('case')
+    if c and c.get('probe'):
+        prob = unsupported_visible_before_wakeup()
+        print('replay probe: %s' % (prob or 'ok'))
+        print(('VIOLATION property=C41 replay=%s' % ctx.replay_path) if prob else 'not reproduced')
+        return 1 if prob else 0
     if not c or 'start' not in c:
         print('nothing to replay: %s' % rp.get('theorem'))
         return 1
